@@ -634,7 +634,9 @@ def wrap_diamond(prog, rng, app="app", top="App"):
     if first_lib:
         imps.reverse()
     decls += imps
-    body = [{"d": "field", "name": "t", "num": 3, "t": tref([old_main, prog["top"]])}]
+    def member_name(f):       # an imported file is a member under its PROTO name (the last proto line wins)
+        return [d["name"] for d in files[f] if d["d"] == "proto"][-1]
+    body = [{"d": "field", "name": "t", "num": 3, "t": tref([member_name(old_main), prog["top"]])}]
     fields = [{"num": 3, "name": "t", "t": prog.get("rtype")}]
     if others and prog.get("rtype") is not None:
         lib = others[0]
@@ -648,7 +650,7 @@ def wrap_diamond(prog, rng, app="app", top="App"):
         cands = [n for n in cands if {"alias": "alias", "enum": "enum", "msg": "message"}[n["k"]] == tops[n["name"]]["d"]]
         if cands:
             n = rng.choice(cands)
-            body.append({"d": "field", "name": "y", "num": 1, "t": tref([lib, n["name"]])})
+            body.append({"d": "field", "name": "y", "num": 1, "t": tref([member_name(lib), n["name"]])})
             fields.append({"num": 1, "name": "y", "t": n})
     decl = {"d": "message", "name": top, "ext": False, "body": body}
     decls.append(decl)
